@@ -236,8 +236,43 @@ func c20QuirkValues() []interface{} {
 }
 
 // fixed instances inside the domain with non-zero unexported fields (reflect cannot set those)
+// named numeric types with String() / Error() methods (protobuf enums, time.Duration): dumped as numbers
+type c20Enum int32
+
+func (e c20Enum) String() string { return "ACTIVE" }
+
+type c20Ratio float64
+
+func (r c20Ratio) String() string { return "high" }
+
+type c20Code uint16
+
+func (c c20Code) Error() string { return "E42" }
+
+type c20Named struct {
+	E  c20Enum
+	D  time.Duration
+	R  c20Ratio
+	C  c20Code
+	ES []c20Enum
+	EM map[c20Enum]int
+	DM map[string]time.Duration
+}
+
+// unexported fields whose names start with a lower-case letter outside ASCII: hidden, as for the standard encoder
+type c20LowerNonASCII struct {
+	élan int
+	A    int
+	αβ   string
+	дом  bool
+	Z    string
+}
+
 func c20FixedValues() []interface{} {
 	return []interface{}{
+		c20LowerNonASCII{élan: 1, A: 2, αβ: "x", дом: true, Z: "z"},
+		c20Named{E: 1, D: 1500 * time.Millisecond, R: 0.5, C: 42, ES: []c20Enum{0, 2}, EM: map[c20Enum]int{3: 4}, DM: map[string]time.Duration{"t": time.Second}},
+		&c20Named{E: -1, D: -1},
 		c20Empty{}, &c20Empty{}, (*c20Empty)(nil), (*c20Deep)(nil),
 		c20FirstUnexp{a: 5, B: "b", C: true},
 		c20AllUnexp{a: 1, b: "x", c: []int{1, 2}},
